@@ -161,6 +161,9 @@ AbsTaken(s, k)  == [j \in 1..(IF k <= Len(s) THEN k ELSE Len(s)) |-> Some(s[j])]
                      \o [j \in 1..(IF k <= Len(s) THEN 0 ELSE k - Len(s)) |-> None]
 AbsRemaining(s, k) == IF k >= Len(s) THEN 0 ELSE Len(s) - k
 AbsLast(s, k)   == IF k >= Len(s) THEN None ELSE Some(s[Len(s)])
+\* what is left after k elements were taken, and the j-th (0-based) of those
+AbsRest(s, k)   == IF k >= Len(s) THEN <<>> ELSE SubSeq(s, k + 1, Len(s))
+AbsNth(s, k, j) == IF k + j + 1 <= Len(s) THEN Some(s[k + j + 1]) ELSE None
 \* the sequence represented by an exported buffer and the index of its oldest element
 AbsFromParts(buf, index) == [j \in 1..Len(buf) |-> buf[((index + j - 1) % Len(buf)) + 1]]
 
